@@ -57,6 +57,7 @@ case "${1:-}" in
     build
     build_cli
     build_instr
+    go build -race -o .work/vrace ./cmd/vrace 2> .work/build-race.log || { cat .work/build-race.log >&2; exit 2; }
     echo "setup ok"
     ;;
   replay)
@@ -70,6 +71,9 @@ case "${1:-}" in
     case "$1" in
       C06|C19)
         build_instr
+        if [ "$1" = C19 ]; then
+          go build -race -o .work/vrace ./cmd/vrace 2> .work/build-race.log || { echo "BUILD-ERROR: race-pass binary" >&2; cat .work/build-race.log >&2; exit 2; }
+        fi
         exec ./.work/vcheck-instr -prop "$1" -tier "$tier" ;;
     esac
     exec ./.work/vcheck -prop "$1" -tier "$tier"
